@@ -224,8 +224,10 @@ class Pdur(FilterPattern):  # Was Pfindur.
                 next_elapsed = elapsed + float(delta)
                 if bi.roundup(next_elapsed, tolerance) >= local_dur:
                     remaining = local_dur - elapsed
+                    if isinstance(delta, evt.Rest):
+                        remaining = evt.Rest(remaining)  # Keep it a rest.
                     inevent = inevent.copy()
-                    inevent['delta'] = type(delta)(remaining)
+                    inevent['delta'] = remaining
                     return (yield inevent)
                 elapsed = next_elapsed
                 inevent = yield inevent
